@@ -126,11 +126,11 @@ PROPS = {
     ),
     'C20': dict(
         title='support helpers', proj='proj_full', oracle='c20',
-        quick=[S_('probes', nc=1, items=('odd_defaults_c20',)), S_('bindcall'), S_('callsig'), S_('makeup'), S_('readsig'), S_('resplit')],
-        thorough=[S_('probes', nc=1, items=('odd_defaults_c20',)), S_('bindcall'), S_('callsig'), S_('makeup'), S_('readsig', count=60000), S_('resplit', count=200000)],
-        runtime_part='Python\'s re and str.split (modelled character by character in Model/ReadSigText.lean and compared by stream resplit), the step from the three regex groups to a piece (lstrip, the chevron expression: compared by stream readsig), str(Signature), CPython compiling the generated def (modelled by parseDef), exec in s/f/func_from_sig (stream readsig: read_sig and s() vs the model on every signature of the universe x 8 option combinations, the chevron spelling and random piece lists; round trips eager and postponed)',
+        quick=[S_('probes', nc=1, items=('odd_defaults_c20',)), S_('bindcall'), S_('callsig'), S_('makeup'), S_('readsig'), S_('resplit'), S_('readsigtext')],
+        thorough=[S_('probes', nc=1, items=('odd_defaults_c20',)), S_('bindcall'), S_('callsig'), S_('makeup'), S_('readsig', count=60000), S_('resplit', count=200000), S_('readsigtext', count=100000)],
+        runtime_part='Python\'s re and str.split (modelled character by character in Model/ReadSigText.lean and compared by stream resplit), str(Signature), CPython compiling the generated def (modelled by parseDef), exec in s/f/func_from_sig (stream readsig: read_sig and s() vs the model on every signature of the universe x 8 option combinations, the chevron spelling and random piece lists; round trips eager and postponed)',
         level_text='bind_callsig = CPython binding (outside the version-dependent case), sort_callsigs partition and make_up_callsigs completeness are theorems '
-                   'about the Lean model; so is the string layer after the comma split (Model/ReadSig.lean): for every signature, s(str(sig)) reproduces it in the native spelling, and for every signature without positional-only parameters in all eight modifiers-based spellings up to the order of keyword-only parameters (theorems s_native, s_no_kwoargs, s_kwoargs, s_annotate_kwoargs, read_sig_kwoargs); the comma split and the regular expression are modelled on characters too (theorem read_sig_text_parts: on well-formed texts they give back exactly the tokens); what joins the two levels (from the groups to a piece) and exec are exercised by the correspondence only (partial).',
+                   'about the Lean model; so is the string layer after the comma split (Model/ReadSig.lean): for every signature, s(str(sig)) reproduces it in the native spelling, and for every signature without positional-only parameters in all eight modifiers-based spellings up to the order of keyword-only parameters (theorems s_native, s_no_kwoargs, s_kwoargs, s_annotate_kwoargs, read_sig_kwoargs); the comma split and the regular expression are modelled on characters too (theorem read_sig_text_parts: on well-formed texts they give back exactly the tokens); and so is the step from the groups to pieces (theorem read_sig_text: read_sig from the text = read_sig on the pieces; stream readsigtext compares the whole of read_sig from the text); exec / compile are exercised by the correspondence only (partial).',
         level_note=NOTE + 'the string/regex/exec layer of support; the value-level binder model.',
     ),
     'C14': dict(
